@@ -16,7 +16,7 @@ res() { echo "RESULT $P$X: $*"; }
 cleanup() { cd /; git -C /repo worktree remove --force $WT; }
 trap cleanup EXIT
 meson setup _build >/dev/null 2>&1 && ninja -C _build >/dev/null 2>&1 || { res "baseline build failed"; exit 1; }
-build_demo() { gcc -O1 -g $SRC/demo.c -I$WT/pixman -I$WT/_build/pixman -L$WT/_build/pixman -lpixman-1 -lm -lpthread -o $WT/demo_bin 2>&1; }
+build_demo() { gcc -O1 -g $SRC/demo.c -I$WT/pixman -I$WT/_build/pixman -L$WT/_build/pixman -lpixman-1 -lm -lpthread -ldl -o $WT/demo_bin 2>&1; }
 build_demo || { res "demo does not build"; exit 1; }
 LD_LIBRARY_PATH=$WT/_build/pixman timeout 300 ./demo_bin >/tmp/confirm_$P$X.clean.out 2>&1; RC_CLEAN=$?
 git apply $SRC/patch.diff || { res "patch does not apply to HEAD"; exit 1; }
